@@ -214,6 +214,36 @@ def optTruthy : Option Str → Bool
 
 def lowerS (s : Str) : Str := Str.lower s
 
+/-- the body of the loop of `VersionFile._read` for a line `key = value` (groups 1 and 2 of the pattern) -/
+def vKeyVal (st : VState) (k g2 : Str) : Except Err VState :=
+  let key := lowerS k
+  let value := stripQuote1 g2
+  if key = kFile then
+    if lowerS value = kVersion then .ok st else .error .badFile
+  else if key = kProduct then
+    .ok (if optTruthy st.cur.name then st else { st with cur := { st.cur with name := some value } })
+  else if key = kVersion then
+    .ok (if optTruthy st.cur.version then st else { st with cur := { st.cur with version := some value } })
+  else if key = kFlavor then
+    let fl := if (dget st.cur.flavors value).isSome then st.cur.flavors else st.cur.flavors ++ [(value, {})]
+    .ok { cur := { st.cur with flavors := fl }, flavor := some value }
+  else
+    let value := stripQuotePair g2
+    match st.flavor with
+    | none => if key = kQualifiers && value.isEmpty then .ok st else .error .keyError
+    | some f =>
+      if key = kQualifiers then
+        if value.isEmpty then .ok st else
+        match dget st.cur.flavors f with
+        | none => .error .keyError
+        | some i =>
+          let nf := f ++ 58 :: value
+          .ok { cur := { st.cur with flavors := ddel (dset st.cur.flavors nf i) f }, flavor := some nf }
+      else
+        match dget st.cur.flavors f with
+        | none => .error .keyError
+        | some i => .ok { st with cur := { st.cur with flavors := dset st.cur.flavors f (i.set key value) } }
+
 /-- one iteration of the loop of `VersionFile._read` -/
 def vStep (st : VState) (raw : Str) : Except Err VState :=
   let line := removeComment (strip raw)
@@ -230,34 +260,7 @@ def vStep (st : VState) (raw : Str) : Except Err VState :=
   else
   match keyVal line with
   | none => .error .unexpectedLine
-  | some (k, g2) =>
-    let key := lowerS k
-    let value := stripQuote1 g2
-    if key = kFile then
-      if lowerS value = kVersion then .ok st else .error .badFile
-    else if key = kProduct then
-      .ok (if optTruthy st.cur.name then st else { st with cur := { st.cur with name := some value } })
-    else if key = kVersion then
-      .ok (if optTruthy st.cur.version then st else { st with cur := { st.cur with version := some value } })
-    else if key = kFlavor then
-      let fl := if (dget st.cur.flavors value).isSome then st.cur.flavors else st.cur.flavors ++ [(value, {})]
-      .ok { cur := { st.cur with flavors := fl }, flavor := some value }
-    else
-      let value := stripQuotePair g2
-      match st.flavor with
-      | none => if key = kQualifiers && value.isEmpty then .ok st else .error .keyError
-      | some f =>
-        if key = kQualifiers then
-          if value.isEmpty then .ok st else
-          match dget st.cur.flavors f with
-          | none => .error .keyError
-          | some i =>
-            let nf := f ++ 58 :: value
-            .ok { cur := { st.cur with flavors := ddel (dset st.cur.flavors nf i) f }, flavor := some nf }
-        else
-          match dget st.cur.flavors f with
-          | none => .error .keyError
-          | some i => .ok { st with cur := { st.cur with flavors := dset st.cur.flavors f (i.set key value) } }
+  | some (k, g2) => vKeyVal st k g2
 
 def vLines (st : VState) : List Str → Except Err VState
   | [] => .ok st
@@ -363,38 +366,41 @@ structure CState where
   flavor : Option Str
   deriving DecidableEq, Repr
 
+/-- the body of the loop of `ChainFile._read` for a line `key = value` -/
+def cKeyVal (st : CState) (k g2 : Str) : Except Err CState :=
+  let key := lowerS k
+  let value := stripQuotesAll g2
+  if key = kFile then
+    if lowerS value = kChain || lowerS value = kVersion then .ok st else .error .badFile
+  else if key = kProduct then
+    .ok (if optTruthy st.cur.name then st else { st with cur := { st.cur with name := some value } })
+  else if key = kChain then
+    .ok (if optTruthy st.cur.tag then st else { st with cur := { st.cur with tag := some value } })
+  else if key = kFlavor then
+    .ok { cur := { st.cur with flavors := dset st.cur.flavors value {} }, flavor := some value }
+  else
+    match st.flavor with
+    | none => if key = kQualifiers && value.isEmpty then .ok st else .error .keyError
+    | some f =>
+      if key = kQualifiers then
+        if value.isEmpty then .ok st else
+        match dget st.cur.flavors f with
+        | none => .error .keyError
+        | some i =>
+          let nf := f ++ 58 :: value
+          .ok { cur := { st.cur with flavors := ddel (dset st.cur.flavors nf i) f }, flavor := some nf }
+      else
+        match dget st.cur.flavors f with
+        | none => .error .keyError
+        | some i => .ok { st with cur := { st.cur with flavors := dset st.cur.flavors f (i.set key value) } }
+
 /-- one iteration of the loop of `ChainFile._read` -/
 def cStep (st : CState) (raw : Str) : Except Err CState :=
   let line := stripL raw
   if line.isEmpty || line.head? == some 35 then .ok st else
   match keyVal line with
   | none => if isGroupEnd line then .ok st else .error .unexpectedLine
-  | some (k, g2) =>
-    let key := lowerS k
-    let value := stripQuotesAll g2
-    if key = kFile then
-      if lowerS value = kChain || lowerS value = kVersion then .ok st else .error .badFile
-    else if key = kProduct then
-      .ok (if optTruthy st.cur.name then st else { st with cur := { st.cur with name := some value } })
-    else if key = kChain then
-      .ok (if optTruthy st.cur.tag then st else { st with cur := { st.cur with tag := some value } })
-    else if key = kFlavor then
-      .ok { cur := { st.cur with flavors := dset st.cur.flavors value {} }, flavor := some value }
-    else
-      match st.flavor with
-      | none => if key = kQualifiers && value.isEmpty then .ok st else .error .keyError
-      | some f =>
-        if key = kQualifiers then
-          if value.isEmpty then .ok st else
-          match dget st.cur.flavors f with
-          | none => .error .keyError
-          | some i =>
-            let nf := f ++ 58 :: value
-            .ok { cur := { st.cur with flavors := ddel (dset st.cur.flavors nf i) f }, flavor := some nf }
-        else
-          match dget st.cur.flavors f with
-          | none => .error .keyError
-          | some i => .ok { st with cur := { st.cur with flavors := dset st.cur.flavors f (i.set key value) } }
+  | some (k, g2) => cKeyVal st k g2
 
 def cLines (st : CState) : List Str → Except Err CState
   | [] => .ok st
@@ -836,6 +842,12 @@ def Info.paths (i : Info) : PInfo :=
 def Info.withPaths (i : Info) (p : PInfo) : Info :=
   { i with productDir := fldOfP p.productDir, tableFile := fldOfP p.tableFile, upsDir := fldOfP p.upsDir }
 
+/-- a block after the trimming loop: an entry the loop did not change keeps its string exactly -/
+def Info.withTrim (i : Info) (p : PInfo) : Info :=
+  let keep (old : Fld) (new : Option PVal) : Fld := if pOfFld old = new then old else fldOfP new
+  { i with productDir := keep i.productDir p.productDir, tableFile := keep i.tableFile p.tableFile,
+           upsDir := keep i.upsDir p.upsDir }
+
 /-- the stamp part of `addFlavor` -/
 def stamp (old : Option Info) (who now : Str) : Info :=
   match old with
@@ -868,7 +880,7 @@ def declareRec (ex : Path → Bool) (who now : Str) (vr : VRec) (p : Prod) : Exc
   let root := stackRoot c.db
   let trimDir := if ex root then some root else none
   let others := vr.flavors.map fun (f, i) =>
-    (f, if f = p.flavor then i else i.withPaths (trimInfo ex trimDir orderFile i.paths))
+    (f, if f = p.flavor then i else i.withTrim (trimInfo ex trimDir orderFile i.paths))
   .ok { vr with flavors := dset others p.flavor ((stamp old who now).withPaths pi) }
 
 /-- `Product(name, version, flavor, dir, table, db=db, ups_dir=ups_dir).resolvePaths()` from the path entries
@@ -945,19 +957,24 @@ def SegsOK (l : List Str) : Prop := ∀ s ∈ l, SegOK s
 instance (s : Str) : Decidable (SegOK s) := by unfold SegOK; infer_instance
 instance (l : List Str) : Decidable (SegsOK l) := by unfold SegsOK; infer_instance
 
+/-- what the record must say about the product directory -/
+def canonDir : DirPl → PVal
+  | .inside rel => .path (Path.rel rel)
+  | .outside s => .path (absP s)
+  | .none => .ph sNone
+
+/-- what the record must say about the table file and the ups directory -/
+def canonTab (name version flavor : Str) : TabPl → PVal × PVal
+  | .inUps => (.path (tableName name), .path (Path.rel [sUps]))
+  | .absInside trel => (.path (Path.rel trel), .path (Path.rel [sUps]))
+  | .absOutside s => (.path (absP s), .path (Path.rel [sUps]))
+  | .interned => (.path (tableName name), .path (Path.rel [mUPS_DB, flavor, name, version, sUps]))
+  | .none => (.ph sNone, .ph sNone)
+
 /-- what the record must contain for a placement: no trace of `root` for anything inside the stack -/
 def canonInfo (name version flavor : Str) (d : DirPl) (t : TabPl) : PInfo :=
-  let pd : PVal := match d with
-    | .inside rel => .path (Path.rel rel)
-    | .outside s => .path (absP s)
-    | .none => .ph sNone
-  let (tf, ups) : PVal × PVal := match t with
-    | .inUps => (.path (tableName name), .path (Path.rel [sUps]))
-    | .absInside trel => (.path (Path.rel trel), .path (Path.rel [sUps]))
-    | .absOutside s => (.path (absP s), .path (Path.rel [sUps]))
-    | .interned => (.path (tableName name), .path (Path.rel [mUPS_DB, flavor, name, version, sUps]))
-    | .none => (.ph sNone, .ph sNone)
-  { productDir := some pd, tableFile := some tf, upsDir := some ups }
+  { productDir := some (canonDir d), tableFile := some (canonTab name version flavor t).1,
+    upsDir := some (canonTab name version flavor t).2 }
 
 /-- Side conditions under which a placement is one of those the property lists. -/
 structure PlaceOK (root : List Str) (name version flavor : Str) (d : DirPl) (t : TabPl) : Prop where
